@@ -35,6 +35,8 @@ Worse(kind, x, y) == IF kind = "onceT" THEN x < y ELSE x > y
 Intersects(x1, x2, y1, y2) == x1 <= y2 /\ y1 <= x2
 
 InitTimed == [prev |-> <<>>, rs |-> -1]
+\* times: the constant signal [[0, c], [inf, c]] carries the time-stamp +inf (PInf); inf + d = inf
+TAdd(t, d) == IF t >= PInf THEN PInf ELSE t + d
 
 \* while (a[2] < b[2]) and (b[0] < a[0]): del out[-1]; a = out[-1]        (IndexError when out runs empty)
 RECURSIVE PopLoop(_, _, _)
@@ -63,9 +65,9 @@ RECURSIVE Feed(_, _, _, _, _, _)
 Feed(kind, a, b, out, sample, i) ==
   IF i > Len(sample) THEN [err |-> FALSE, out |-> out]
   ELSE
-    LET out1 == IF i = 1 /\ sample[1][1] = 0 /\ a > 0 THEN Append(out, <<0, sample[1][1] + a, UnitOf(kind)>>) ELSE out
-        tb == IF i = Len(sample) THEN <<sample[i][1] + a, sample[i][1] + b, sample[i][2]>>
-              ELSE <<sample[i][1] + a, sample[i + 1][1] + b, sample[i][2]>>
+    LET out1 == IF i = 1 /\ sample[1][1] = 0 /\ a > 0 THEN Append(out, <<0, TAdd(sample[1][1], a), UnitOf(kind)>>) ELSE out
+        tb == IF i = Len(sample) THEN <<TAdd(sample[i][1], a), TAdd(sample[i][1], b), sample[i][2]>>
+              ELSE <<TAdd(sample[i][1], a), TAdd(sample[i + 1][1], b), sample[i][2]>>
         r == Insert(kind, out1, tb) IN
     IF r.err THEN r ELSE Feed(kind, a, b, r.out, sample, i + 1)
 
@@ -83,7 +85,7 @@ Emit(out, i, rs, pv, res, carry, last, Dev) ==
       ELSE Emit(out, i + 1, rs, t[3], res1, Append(carry, <<rs, t[2], t[3]>>), <<rs, t[3]>>, Dev)
     ELSE Emit(out, i + 1, rs, t[3], res, Append(carry, t), last, Dev)
 
-Finish(res, last) ==
+FinishRes(res, last) ==
   IF last = <<>> THEN res
   ELSE IF res = <<>> THEN <<last>>
   ELSE IF last[1] > LastE(res)[1] THEN Append(res, last) ELSE res
@@ -93,12 +95,12 @@ TimedUpd(kind, a, b, st, sample0, Dev) ==
   LET sample == IF "noDedupe" \notin Dev /\ sample0 # <<>> /\ sample0[1][1] = st.rs THEN Tail(sample0) ELSE sample0
       rs == IF sample # <<>> THEN LastE(sample)[1] ELSE st.rs
       out0 == IF sample # <<>> /\ st.prev # <<>>
-              THEN Append(Front(st.prev), <<LastE(st.prev)[1], sample[1][1] + b, LastE(st.prev)[3]>>)
+              THEN Append(Front(st.prev), <<LastE(st.prev)[1], TAdd(sample[1][1], b), LastE(st.prev)[3]>>)
               ELSE st.prev
       f == Feed(kind, a, b, out0, sample, 1) IN
   IF f.err THEN [err |-> TRUE, ret |-> <<>>, st |-> st]
   ELSE LET e == Emit(f.out, 1, rs, NaNV, <<>>, <<>>, <<>>, Dev) IN
-       [err |-> FALSE, ret |-> Finish(e.res, e.last), st |-> [prev |-> e.carry, rs |-> rs]]
+       [err |-> FALSE, ret |-> FinishRes(e.res, e.last), st |-> [prev |-> e.carry, rs |-> rs]]
 
 ---------------------------------------------------------------------------
 \* What the operator must compute: the dense-time semantics of Dense!SigC on the whole signal.  sig is a sample
@@ -117,4 +119,226 @@ AgreesWith(emitted, kind, a, b, sig) ==
   \A t \in FirstT(emitted)..LastT(emitted) : StepAt(emitted, t) = R[Clip(t + 1, n)]
 
 StrictlyIncreasing(sl) == \A i \in 1..(Len(sl) - 1) : sl[i][1] < sl[i + 1][1]
+---------------------------------------------------------------------------
+(***************************************************************************)
+(* Part 2: intersection.py - the merge of two sample streams by the 13     *)
+(* Allen relations between their first segments - and the binary operator  *)
+(* template built on it (and/or/implies/iff/xor, + - * /, the subtraction  *)
+(* inside a predicate).  Memory of a binary operator:                      *)
+(*    lb, rb : unconsumed samples of the left / right operand              *)
+(*    lo     : last sample it returned (to drop a repeated first sample)   *)
+(***************************************************************************)
+Meth(m, x, y, S) ==
+  CASE m = "and"     -> Min2(x, y)
+    [] m = "or"      -> Max2(x, y)
+    [] m = "implies" -> Max2(Neg(x), y)
+    [] m = "iff"     -> Neg(Abs(Sub(x, y)))
+    [] m = "xor"     -> Abs(Sub(x, y))
+    [] m = "add"     -> Add(x, y)
+    [] m = "sub"     -> Sub(x, y)
+    [] m = "mul"     -> Mul(x, y, S)
+    [] m = "div"     -> Div(x, y, S)
+    [] OTHER         -> Undef
+
+\* _append: a sample is appended only if its value differs from the previous one
+AppendV(out, item) == IF out = <<>> \/ LastE(out)[2] # item[2] THEN Append(out, item) ELSE out
+
+RECURSIVE ILoop(_, _, _, _, _, _)
+ILoop(s1, s2, out, last, m, S) ==
+  IF Len(s1) <= 1 \/ Len(s2) <= 1 THEN [err |-> FALSE, s1 |-> s1, s2 |-> s2, out |-> out, last |-> last]
+  ELSE
+    LET p1 == s1[1]  c1 == s1[2]  p2 == s2[1]  c2 == s2[2]
+        pp == Meth(m, p1[2], p2[2], S)  cp == Meth(m, c1[2], p2[2], S)
+        pc == Meth(m, p1[2], c2[2], S)  cc == Meth(m, c1[2], c2[2], S) IN
+    \* 1: interval 1 precedes interval 2
+    IF c1[1] < p2[1] THEN ILoop(Tail(s1), s2, out, <<>>, m, S)
+    \* 2: 1 meets 2
+    ELSE IF p1[1] < c1[1] /\ c1[1] = p2[1] /\ p2[1] < c2[1] THEN ILoop(Tail(s1), s2, out, <<p2[1], cp>>, m, S)
+    \* 3: 1 overlaps 2
+    ELSE IF p1[1] < p2[1] /\ p2[1] < c1[1] /\ c1[1] < c2[1] THEN ILoop(Tail(s1), s2, AppendV(out, <<p2[1], pp>>), <<c1[1], cp>>, m, S)
+    \* 4: 1 is finished by 2
+    ELSE IF p1[1] < p2[1] /\ p2[1] < c1[1] /\ c1[1] = c2[1] THEN ILoop(Tail(s1), s2, AppendV(out, <<p2[1], pp>>), <<c2[1], cc>>, m, S)
+    \* 5: 1 finishes 2
+    ELSE IF p2[1] < p1[1] /\ p1[1] < c1[1] /\ c1[1] = c2[1] THEN ILoop(Tail(s1), s2, AppendV(out, <<p1[1], pp>>), <<c2[1], cc>>, m, S)
+    \* 6: 1 contains 2
+    ELSE IF p1[1] < p2[1] /\ p2[1] < c2[1] /\ c2[1] < c1[1] THEN ILoop(s1, Tail(s2), AppendV(out, <<p2[1], pp>>), <<c2[1], pc>>, m, S)
+    \* 7: 1 is started by 2
+    ELSE IF p1[1] = p2[1] /\ p2[1] < c2[1] /\ c2[1] < c1[1] THEN ILoop(s1, Tail(s2), AppendV(out, <<p2[1], pp>>), <<c2[1], pc>>, m, S)
+    \* 8: 1 equals 2
+    ELSE IF p1[1] = p2[1] /\ p2[1] < c2[1] /\ c2[1] = c1[1] THEN ILoop(Tail(s1), s2, AppendV(out, <<p2[1], pp>>), <<c2[1], cc>>, m, S)
+    \* 9: 1 starts 2
+    ELSE IF p1[1] = p2[1] /\ p2[1] < c1[1] /\ c1[1] < c2[1] THEN ILoop(Tail(s1), s2, AppendV(out, <<p1[1], pp>>), <<c1[1], cp>>, m, S)
+    \* 10: 1 is contained in 2
+    ELSE IF p2[1] < p1[1] /\ p1[1] < c1[1] /\ c1[1] < c2[1] THEN ILoop(Tail(s1), s2, AppendV(out, <<p1[1], pp>>), <<c1[1], cp>>, m, S)
+    \* 11: 1 is met by 2
+    ELSE IF p2[1] < c2[1] /\ c2[1] = p1[1] /\ p1[1] < c1[1] THEN ILoop(s1, Tail(s2), out, <<c2[1], pc>>, m, S)
+    \* 12: 1 is overlapped by 2
+    ELSE IF p2[1] < p1[1] /\ p1[1] < c2[1] /\ c2[1] < c1[1] THEN ILoop(s1, Tail(s2), AppendV(out, <<p1[1], pp>>), <<c2[1], pc>>, m, S)
+    \* 13: 1 is preceded by 2
+    ELSE IF p1[1] > c2[1] THEN ILoop(s1, Tail(s2), out, last, m, S)
+    \* RTAMTException('Unexpected case in the intersection')
+    ELSE [err |-> TRUE, s1 |-> s1, s2 |-> s2, out |-> out, last |-> last]
+
+\* the two loops after the main loop: one stream is down to its last sample q, the other (s) still has segments
+RECURSIVE ITail(_, _, _, _, _, _, _)
+ITail(s, q, out, last, m, S, left) ==
+  IF Len(s) <= 1 THEN [out |-> out, last |-> last]
+  ELSE
+    LET p == s[1]
+        c == s[2]
+        f(x) == IF left THEN Meth(m, x[2], q[2], S) ELSE Meth(m, q[2], x[2], S) IN
+    IF p[1] > q[1] THEN [out |-> out, last |-> last]
+    ELSE IF p[1] = q[1] THEN [out |-> out, last |-> <<q[1], f(p)>>]
+    ELSE IF q[1] < c[1] THEN ITail(Tail(s), q, AppendV(out, <<q[1], f(p)>>), <<q[1], f(p)>>, m, S, left)
+    ELSE IF q[1] = c[1] THEN ITail(Tail(s), q, AppendV(out, <<q[1], f(c)>>), <<q[1], f(c)>>, m, S, left)
+    ELSE ITail(Tail(s), q, out, <<>>, m, S, left)
+
+Intersection(in1, in2, m, S) ==
+  IF in1 = <<>> \/ in2 = <<>> THEN [err |-> FALSE, out |-> <<>>, last |-> <<>>, r1 |-> in1, r2 |-> in2]
+  ELSE
+    LET l0 == IF in1[1][1] = in2[1][1] THEN <<in1[1][1], Meth(m, in1[1][2], in2[1][2], S)>> ELSE <<>>
+        r == ILoop(in1, in2, <<>>, l0, m, S) IN
+    IF r.err THEN [err |-> TRUE, out |-> <<>>, last |-> <<>>, r1 |-> in1, r2 |-> in2]
+    ELSE
+      LET t == IF Len(r.s1) > 1 THEN ITail(r.s1, r.s2[1], r.out, r.last, m, S, TRUE)
+               ELSE IF Len(r.s2) > 1 THEN ITail(r.s2, r.s1[1], r.out, r.last, m, S, FALSE)
+               ELSE [out |-> r.out, last |-> r.last] IN
+      [err |-> FALSE, out |-> t.out, last |-> t.last, r1 |-> r.s1, r2 |-> r.s2]
+
+InitBin == [lb |-> <<>>, rb |-> <<>>, lo |-> <<>>]
+Buffer(buf, new) == IF buf # <<>> /\ new # <<>> /\ LastE(buf)[1] = new[1][1] THEN buf \o Tail(new) ELSE buf \o new
+
+\* AndOperation.update and its siblings
+BinUpd(m, st, l, r, S) ==
+  LET x == Intersection(Buffer(st.lb, l), Buffer(st.rb, r), m, S) IN
+  IF x.err THEN [err |-> TRUE, ret |-> <<>>, st |-> st]
+  ELSE
+    LET res1 == IF x.last = <<>> THEN x.out
+                ELSE IF x.out = <<>> THEN <<x.last>>
+                ELSE IF x.last[1] > LastE(x.out)[1] THEN Append(x.out, x.last) ELSE x.out
+        res2 == IF st.lo # <<>> /\ res1 # <<>> /\ st.lo = res1[1] THEN Tail(res1) ELSE res1 IN
+    [err |-> FALSE, ret |-> res2,
+     st |-> [lb |-> x.r1, rb |-> x.r2, lo |-> IF res2 # <<>> THEN LastE(res2) ELSE st.lo]]
+
+\* PredicateOperation.update (standard semantics): subtraction, then the comparison's sign convention
+CmpMap(cmp, v) == CASE cmp = "eq" -> Neg(Abs(v)) [] cmp = "ne" -> Abs(v) [] cmp \in {"le", "lt"} -> Neg(v) [] OTHER -> v
+MapSeq(sl, F(_)) == [i \in 1..Len(sl) |-> <<sl[i][1], F(sl[i][2])>>]
+PredUpd(cmp, st, l, r, S) ==
+  LET x == BinUpd("sub", st, l, r, S) IN
+  IF x.err THEN x ELSE [err |-> FALSE, ret |-> MapSeq(x.ret, LAMBDA v : CmpMap(cmp, v)), st |-> x.st]
+
+---------------------------------------------------------------------------
+(* Part 3: the stateless maps, untimed once / historically, untimed since (since_operation.py) *)
+RECURSIVE RunFoldC(_, _, _, _, _)
+RunFoldC(sl, i, pv, acc, isMax) ==
+  IF i > Len(sl) THEN [ret |-> acc, prev |-> pv]
+  ELSE LET v == IF isMax THEN Max2(sl[i][2], pv) ELSE Min2(sl[i][2], pv) IN
+       RunFoldC(sl, i + 1, v, Append(acc, <<sl[i][1], v>>), isMax)
+
+InitSince == [lb |-> <<>>, rb |-> <<>>, prev |-> NInf, last |-> <<>>]
+RECURSIVE SinceLoop(_, _, _, _, _)
+SinceLoop(a, b, pv, last, res) ==
+  IF Len(a) <= 1 \/ Len(b) <= 1 THEN [a |-> a, b |-> b, prev |-> pv, last |-> last, res |-> res]
+  ELSE
+    LET as == a[1][1]  ae == a[2][1]  bs == b[1][1]  be == b[2][1]
+        av == a[1][2]  bv == b[1][2]  an == a[2][2]  bn == b[2][2]
+        lastv == IF ae < be THEN Max2(Min2(an, bv), Min2(an, pv))
+                 ELSE IF ae > be THEN Max2(Min2(av, bn), Min2(av, pv))
+                 ELSE Max2(Min2(an, bn), Min2(an, pv))
+        a1 == IF ae <= be THEN Tail(a) ELSE a
+        b1 == IF ae >= be THEN Tail(b) ELSE b
+        lo == IF as >= bs THEN as ELSE bs
+        hi == IF ae <= be THEN ae ELSE be
+        val == Max2(Min2(av, bv), Min2(av, pv)) IN
+    IF lo < hi THEN SinceLoop(a1, b1, val, <<hi, lastv>>, Append(res, <<lo, val>>))
+    ELSE SinceLoop(a1, b1, pv, last, res)
+
+SinceUpd(st, l, r) ==
+  LET x == SinceLoop(st.lb \o l, st.rb \o r, st.prev, st.last, <<>>) IN
+  [err |-> FALSE, ret |-> x.res, st |-> [lb |-> x.a, rb |-> x.b, prev |-> x.prev, last |-> x.last]]
+
+\* SinceTimedOperation: once[a,b](r) and historically[0,a](l since r)
+InitSinceT == [once |-> InitTimed, since |-> InitSince, hist |-> InitTimed, andop |-> InitBin]
+SinceTUpd(a, b, st, l, r, S, Dev) ==
+  LET o1 == TimedUpd("onceT", a, b, st.once, r, Dev)
+      o2 == SinceUpd(st.since, l, r)
+      o3 == TimedUpd("histT", 0, a, st.hist, o2.ret, Dev) IN
+  IF o1.err \/ o3.err THEN [err |-> TRUE, ret |-> <<>>, st |-> st]
+  ELSE LET o4 == BinUpd("and", st.andop, o1.ret, o3.ret, S) IN
+       IF o4.err THEN [err |-> TRUE, ret |-> <<>>, st |-> st]
+       ELSE [err |-> FALSE, ret |-> o4.ret, st |-> [once |-> o1.st, since |-> o2.st, hist |-> o3.st, andop |-> o4.st]]
+
+---------------------------------------------------------------------------
+(***************************************************************************)
+(* Part 4: one update() of a whole specification                           *)
+(* (abstract_dense_time_online_interpreter.py, abstract_online_interpreter *)
+(* .py): the operator memories are kept per distinct sub-formula (= per    *)
+(* printed name), every distinct sub-formula is evaluated once per update  *)
+(* (V: already visited), variables return their batch, a constant returns  *)
+(* [[0, c], [inf, c]] at the first update only.                            *)
+(***************************************************************************)
+OnlineCOK(p) == ~HasOp(p, {"ev", "alw", "until", "evT", "alwT", "untilT", "next", "snext", "prev", "sprev", "rise", "fall",
+                          "precT", "unless", "unlessT", "sqrt", "exp", "ln", "pow", "log"})
+InitMemC(p) ==
+  [q \in SubF(p) |->
+     CASE q.op \in {"onceT", "histT"} -> InitTimed
+       [] q.op = "once" -> [prev |-> NInf]
+       [] q.op = "hist" -> [prev |-> PInf]
+       [] q.op = "since" -> InitSince
+       [] q.op = "sinceT" -> InitSinceT
+       [] q.op = "const" -> [first |-> TRUE]
+       [] q.op \in {"and", "or", "implies", "iff", "xor", "add", "sub", "mul", "div", "pred"} -> InitBin
+       [] OTHER -> [none |-> TRUE]]
+
+Done(p, M, V, out) == [M |-> M, V |-> [done |-> V.done \cup {p}, o |-> [V.o EXCEPT ![p] = out]], out |-> out, err |-> FALSE]
+Failed(M, V) == [M |-> M, V |-> V, out |-> <<>>, err |-> TRUE]
+
+RECURSIVE EvalC(_, _, _, _, _, _)
+EvalC(p, M, V, batch, S, Dev) ==
+  IF p \in V.done THEN [M |-> M, V |-> V, out |-> V.o[p], err |-> FALSE]
+  ELSE IF p.op = "var" THEN Done(p, M, V, batch[p.v])
+  ELSE IF p.op = "const" THEN
+    (IF M[p].first \/ "constEveryUpdate" \in Dev
+     THEN Done(p, [M EXCEPT ![p] = [first |-> FALSE]], V, <<<<0, p.c>>, <<PInf, p.c>>>>)
+     ELSE Done(p, M, V, <<>>))
+  ELSE IF p.op \in Un1 THEN
+    LET c == EvalC(p.l, M, V, batch, S, Dev) IN
+    IF c.err THEN c
+    ELSE IF p.op \in {"not", "neg"} THEN Done(p, c.M, c.V, MapSeq(c.out, Neg))
+    ELSE IF p.op = "abs" THEN Done(p, c.M, c.V, MapSeq(c.out, Abs))
+    ELSE IF p.op \in {"once", "hist"} THEN
+      LET r == RunFoldC(c.out, 1, c.M[p].prev, <<>>, p.op = "once") IN
+      Done(p, [c.M EXCEPT ![p] = [prev |-> r.prev]], c.V, r.ret)
+    ELSE IF p.op \in {"onceT", "histT"} THEN
+      LET r == TimedUpd(p.op, p.a, p.b, c.M[p], c.out, Dev) IN
+      IF r.err THEN Failed(c.M, c.V) ELSE Done(p, [c.M EXCEPT ![p] = r.st], c.V, r.ret)
+    ELSE Failed(c.M, c.V)
+  ELSE
+    LET cl == EvalC(p.l, M, V, batch, S, Dev) IN
+    IF cl.err THEN cl
+    ELSE
+      LET cr == EvalC(p.r, cl.M, cl.V, batch, S, Dev) IN
+      IF cr.err THEN cr
+      ELSE
+        LET r == IF p.op = "pred" THEN PredUpd(p.cmp, cr.M[p], cl.out, cr.out, S)
+                 ELSE IF p.op = "since" THEN SinceUpd(cr.M[p], cl.out, cr.out)
+                 ELSE IF p.op = "sinceT" THEN SinceTUpd(p.a, p.b, cr.M[p], cl.out, cr.out, S, Dev)
+                 ELSE BinUpd(p.op, cr.M[p], cl.out, cr.out, S) IN
+        IF r.err THEN Failed(cr.M, cr.V) ELSE Done(p, [cr.M EXCEPT ![p] = r.st], cr.V, r.ret)
+
+\* spec.update(batches): batch is a function from the variables to sample lists
+V0(p) == [done |-> {}, o |-> [q \in SubF(p) |-> <<>>]]
+UpdateC(p, M, batch, S, Dev) ==
+  LET r == EvalC(p, M, V0(p), batch, S, Dev) IN [err |-> r.err, ret |-> r.out, M |-> r.M]
+
+\* the contract (property C05): the concatenated returns denote Dense!SigC of the whole input on the domain they cover
+RefCellsF(p, W, vs, S) ==
+  LET d1 == DomEnd(W, vs) + Settle(p)
+      C == CellsOf(W, vs, 0, d1) IN
+  SigC(p, C, d1 + 1, S, [sem |-> "standard", io |-> [v \in vs |-> "output"]])
+AgreesWithF(emitted, p, W, vs, S) ==
+  emitted = <<>> \/
+  LET R == RefCellsF(p, W, vs, S)
+      n == Len(R) IN
+  \A t \in FirstT(emitted)..LastT(emitted) : StepAt(emitted, t) = R[Clip(t + 1, n)]
 =============================================================================
